@@ -182,7 +182,8 @@ func H_C10_sequence() {
 	logger.AppenderRefs.AppenderRefs = []*AppenderRef{{Appender: app, Level: all}}
 	tag := &Tag{tag: "_t_x", logger: logger}
 	defer func() { TimeNow, StringFromContext, FieldsFromContext = nil, nil, nil }()
-	hookTime := [2]time.Time{time.Unix(1700000000, 0), time.Unix(1800000000, 0)}
+	// the second hook time is the same instant as the first one, expressed in another zone
+	hookTime := [2]time.Time{time.Unix(1700000000, 0), time.Unix(1700000000, 0).In(time.FixedZone("east", 8*3600))}
 	var set [2][3]bool
 	for ev := 0; ev < 2; ev++ {
 		TimeNow, StringFromContext, FieldsFromContext = nil, nil, nil
@@ -201,6 +202,25 @@ func H_C10_sequence() {
 			Info(vCtx, tag, Msg("one"), Int("a", 1))
 		} else {
 			Warn(vCtx, tag, Msg("two"))
+		}
+	}
+	// the formatted record shows the hook's time as returned (same instant, different zones)
+	if set[0][0] && set[1][0] {
+		sink := &vSink{}
+		saved := Stdout
+		Stdout = sink
+		cl := &ConsoleLogger{LoggerBase: LoggerBase{Name: "c", Level: all}, ConsoleAppender: ConsoleAppender{Layout: &TextLayout{BaseLayout{FileLineLength: 48}}}}
+		ctag := &Tag{tag: "_t_y", logger: cl}
+		for k := 0; k < 2; k++ {
+			kk := k
+			TimeNow = func(ctx context.Context) time.Time { return hookTime[kk] }
+			Info(vCtx, ctag, Msg("t"))
+		}
+		Stdout = saved
+		vAssert(len(sink.writes) == 2, "formatted-events-emitted")
+		if len(sink.writes) == 2 {
+			vAssert(vContains(sink.writes[0], "[2023-11-14T22:13:20.000]"), "formatted-record-shows-the-hooks-time")
+			vAssert(vContains(sink.writes[1], "[2023-11-15T06:13:20.000]"), "formatted-record-shows-the-hooks-time-in-its-zone")
 		}
 	}
 	vAssert(app.appends == 2, "both-events-emitted")
